@@ -38,6 +38,12 @@ fn raw_ok(f: &Params, op: &str, x: u128, y: u128, got: u128) -> bool {
         "mul" => (big(got) * &r) % &p == (big(x) * big(y)) % &p,
         "montgomery" => big(got) == (big(x) * &r) % &p,
         "residue" => (big(got) * &r) % &p == big(x) % &p,
+        // x is the Montgomery word of a = x/R; the result is the word of a^y, for any word y
+        "pow" => {
+            let rinv = r.modpow(&(&p - 2u32), &p);
+            let a = (big(x) * &rinv) % &p;
+            big(got) == (a.modpow(&big(y), &p) * &r) % &p
+        }
         _ => true,
     }
 }
@@ -129,6 +135,12 @@ where
         out.case(format!("fe {} inv {} 0", name, x), inv.to_string());
         if x != 0 {
             out.oracle(a.inv() * a == F::one(), || format!("fe {} inv*x {}", name, x), || "not one".into());
+        }
+        // exponents at and above the group order, on the public type
+        for e in [p - 1, p - 2] {
+            let pw = int(a.pow(F::Integer::try_from(e).unwrap()));
+            let want = big(x).modpow(&big(e), &pb);
+            out.oracle(big(pw) == want, || format!("fe {} pow {} {}", name, x, e), || format!("got {}", pw));
         }
         let e = y >> rng.below(128);
         let pw = int(a.pow(F::Integer::try_from(e % p).unwrap()));
@@ -298,6 +310,16 @@ pub fn run(out: &mut Out, thorough: bool, seed: u64) {
                 raw_case(out, f, op, x, y, true);
             }
             raw_case(out, f, "pow", x, y >> rng.below(128), true);
+        }
+        // exponent edges: the exponent is any word, not a residue; 0^e = 0 for every e > 0, also when
+        // e is a multiple of p - 1
+        let wmax = if f.bits == 128 { u128::MAX } else { (1u128 << f.bits) - 1 };
+        for &x in &[0u128, 1, 2, f.p - 1, f.p - 2, rand_below(&mut rng, f.p)] {
+            for &e in &[0u128, 1, 2, f.p - 2, f.p - 1, f.p, f.p + 1, wmax, wmax - 1, (f.p - 1) / 2] {
+                if e <= wmax {
+                    raw_case(out, f, "pow", x, e, true);
+                }
+            }
         }
         // unreduced words into montgomery (the From<int> path accepts any integer of the word type)
         for _ in 0..200 {
